@@ -600,6 +600,36 @@ func c05New(c *core.Ctx) {
 	ipNil, errNil := body.NilKey(ipID), body.NilKey(errID)
 	res := analyze(c, body, flow.Config{NoHavoc: true,
 		OnNode: func(st *flow.State, n ast.Node) {
+			// a net.IPNet literal whose Mask is one of the all-ones masks (`net.IPNet{IP: ip4, Mask: allOnesIPv4Mask}`)
+			ast.Inspect(n, func(m ast.Node) bool {
+				if _, isLit := m.(*ast.FuncLit); isLit {
+					return false
+				}
+				cl, ok := m.(*ast.CompositeLit)
+				if !ok {
+					return true
+				}
+				if tv, ok := f.Info.Types[cl]; !ok || tv.Type == nil || tv.Type.String() != "net.IPNet" {
+					return true
+				}
+				for _, el := range cl.Elts {
+					kv, ok := el.(*ast.KeyValueExpr)
+					if !ok {
+						continue
+					}
+					if k, ok := kv.Key.(*ast.Ident); !ok || k.Name != "Mask" {
+						continue
+					}
+					if rid, ok := ast.Unparen(kv.Value).(*ast.Ident); ok {
+						if bits, ok := maskBits[f.Info.Uses[rid]]; ok {
+							st.Set("ev:mask:32/32", flow.Unknown)
+							st.Set("ev:mask:128/128", flow.Unknown)
+							st.Set("ev:mask:"+bits, flow.True)
+						}
+					}
+				}
+				return true
+			})
 			as, ok := n.(*ast.AssignStmt)
 			if !ok || len(as.Lhs) != 1 || len(as.Rhs) != 1 {
 				return
